@@ -2807,7 +2807,11 @@ where
                     }
 
                     if packet.session_present() {
-                        events.extend(self.send_stored());
+                        let stored_events = self.send_stored();
+                        if !stored_events.is_empty() {
+                            events.extend(stored_events);
+                            self.send_post_process(&mut events);
+                        }
                     } else {
                         self.clear_store_related();
                     }
